@@ -357,8 +357,9 @@ static coap_response_t on_response(coap_session_t *session, const coap_pdu_t *se
     coap_bin_const_t tk = coap_pdu_get_token(rcvd);
     int code = coap_pdu_get_code(rcvd);
     int canary = tk.length == 2 && tk.s[0] == 0xca && tk.s[1] == 0xfe;
-    /* obsre: token 67 xx, bit 7 of xx = registered by a FETCH with payload "Q1": the representation must show it */
-    if (tk.length == 2 && tk.s[0] == 0x67 && COAP_RESPONSE_CLASS(code) == 2 && coap_get_data(rcvd, &len, &data) && len == 3 &&
+    /* obsre: token 67 xx, bit 7 of xx = registered by a FETCH with payload "Q1": the representation must show it
+     * (echo: token 6a xx, same rule: the request repeated with the Echo option must still have its body) */
+    if (tk.length == 2 && (tk.s[0] == 0x67 || tk.s[0] == 0x6a) && COAP_RESPONSE_CLASS(code) == 2 && coap_get_data(rcvd, &len, &data) && len == 3 &&
         data[0] == 'v' && data[2] != ((tk.s[1] & 0x80) ? 'Q' : '-')) { c_body_bad++; out_put("lostbody:%02x", tk.s[1]); }
     /* obsfetch: token 68 xx, registered by a FETCH whose body starts with 'Q' (81: two bytes) / body[0] (82: 2500 bytes) */
     if (tk.length == 2 && tk.s[0] == 0x68 && COAP_RESPONSE_CLASS(code) == 2 && coap_get_data(rcvd, &len, &data) && len == 3 &&
@@ -421,8 +422,14 @@ static void hnd_508(coap_resource_t *r, coap_session_t *s, const coap_pdu_t *req
   coap_add_data(rsp, 8, (const uint8_t *)"10.0.0.9");
 }
 static void hnd_unknown(coap_resource_t *r, coap_session_t *s, const coap_pdu_t *req, const coap_string_t *q, coap_pdu_t *rsp) {
-  (void)r; (void)s; (void)req; (void)q;
+  size_t len = 0, off = 0, total = 0;
+  const uint8_t *data = NULL;
+  (void)r; (void)s; (void)q;
   s_req++;
+  /* b1u: a body reassembled for the unknown resource must be the body sent (same rule as hnd_put) */
+  if (coap_pdu_get_code(req) == COAP_REQUEST_CODE_PUT && coap_get_data_large(req, &len, &data, &off, &total) && len) {
+    if (off == 0 && len == sizeof(body) && !memcmp(data, body, len)) s_put_ok++; else s_put_bad++;
+  }
   coap_pdu_set_code(rsp, COAP_RESPONSE_CODE_CREATED);
 }
 
@@ -524,6 +531,26 @@ static void hnd_obsf(coap_resource_t *r, coap_session_t *s, const coap_pdu_t *re
   uint8_t v[3];
   (void)r; (void)s; (void)q;
   s_req++;
+  v[0] = 'v'; v[1] = (uint8_t)('0' + obs_val);
+  v[2] = coap_get_data(req, &len, &d) && len ? d[0] : '-';
+  coap_pdu_set_code(rsp, COAP_RESPONSE_CODE_CONTENT);
+  if (!coap_add_data(rsp, 3, v)) coap_pdu_set_code(rsp, COAP_RESPONSE_CODE_INTERNAL_ERROR);
+}
+
+/* a resource that demands freshness (RFC 9175): a request without Echo option is answered 4.01 with an Echo option, the
+ * same request with the option is served; the representation shows the first payload byte of the request ('-' = none) */
+static void hnd_echo(coap_resource_t *r, coap_session_t *s, const coap_pdu_t *req, const coap_string_t *q, coap_pdu_t *rsp) {
+  coap_opt_iterator_t oi;
+  size_t len = 0;
+  const uint8_t *d = NULL;
+  uint8_t v[3];
+  (void)r; (void)s; (void)q;
+  s_req++;
+  if (!coap_check_option(req, COAP_OPTION_ECHO, &oi)) {
+    coap_pdu_set_code(rsp, COAP_RESPONSE_CODE_UNAUTHORIZED);
+    if (!coap_add_option(rsp, COAP_OPTION_ECHO, 8, (const uint8_t *)"ECHOecho")) coap_pdu_set_code(rsp, COAP_RESPONSE_CODE_INTERNAL_ERROR);
+    return;
+  }
   v[0] = 'v'; v[1] = (uint8_t)('0' + obs_val);
   v[2] = coap_get_data(req, &len, &d) && len ? d[0] : '-';
   coap_pdu_set_code(rsp, COAP_RESPONSE_CODE_CONTENT);
@@ -907,19 +934,20 @@ static void scn_wkc(void) {
   wkc_get("rt=nothing", 4);
 }
 /* one hand-built Block1 request: block num of the 2500-byte body in 512-byte blocks, no Size1 */
-static void raw_put_block(unsigned num, int tok) {
+static void raw_put_block_to(const char *path, unsigned num, int tok) {
   size_t off = (size_t)num << 9, len = sizeof(body) - off > 512 ? 512 : sizeof(body) - off;
   unsigned m = off + len < sizeof(body);
   uint8_t t[2], buf[4];
   coap_pdu_t *p;
   t[0] = 0x62; t[1] = (uint8_t)tok;
-  p = new_req(COAP_MESSAGE_CON, COAP_REQUEST_CODE_PUT, t, 2, "put");
+  p = new_req(COAP_MESSAGE_CON, COAP_REQUEST_CODE_PUT, t, 2, path);
   if (!p) { out_put("pdu-fail"); return; }
   if (!coap_add_option(p, COAP_OPTION_BLOCK1, coap_encode_var_safe(buf, sizeof(buf), (num << 4) | (m << 3) | 5), buf) ||
       !coap_add_data(p, len, body + off)) { out_put("opt-fail"); coap_delete_pdu(p); return; }
   tracked_send(cs, p);
   settle(120000);
 }
+static void raw_put_block(unsigned num, int tok) { raw_put_block_to("put", num, tok); }
 static void scn_b1raw(void) {
   static const unsigned order2[5] = {0, 2, 1, 4, 3};
   w_cli_block = 0;
@@ -1071,6 +1099,85 @@ static void scn_b1o(void) {
   if (!world_up(0, 0)) { out_put("setup-fail"); return; }
   for (int i = 0; b1o_order[i]; i++) raw_put_block((unsigned)(b1o_order[i] - '0'), 0x30 + i);
 }
+/* b1u.<spec>: hand-built 512-byte Block1 requests as in b1o, to TWO targets whose transfers are interleaved as the spec
+ * says: pairs <target><block>, target u = PUT /unk1 (no such resource: served by the UNKNOWN-resource handler, libcoap keeps
+ * a copy of the URI path with the lg_srcv of such a transfer), p = PUT /put (a resource of its own); the server context has
+ * two endpoints, an /attr resource and the unknown handler (world_up extras) */
+static const char *b1u_spec = "";
+static void scn_b1u(void) {
+  w_cli_block = 0;
+  if (!world_up(0, 1)) { out_put("setup-fail"); return; }
+  for (int i = 0; b1u_spec[i] && b1u_spec[i + 1]; i += 2)
+    raw_put_block_to(b1u_spec[i] == 'u' ? "unk1" : "put", (unsigned)(b1u_spec[i + 1] - '0'), 0x30 + i / 2);
+}
+/* oscobs: an OSCORE-protected observation.  Registration (GET Observe 0, token T), a notification, the registration made
+ * AGAIN under the same token (RFC 7641 3.3.1: a client may re-register at any time), a notification, coap_cancel_observe
+ * (GET Observe 1 under the SAME token, RFC 7641 3.6; repeated when it failed because of the failing request), a notification
+ * nobody listens to.  Every request after the first finds the OSCORE association of its token alive: it is REFRESHED in
+ * coap_oscore_new_pdu_encrypted_lkd (nonce, AAD, Partial IV replaced) instead of created. */
+static void scn_oscobs(void) {
+  uint8_t tok[2] = {0x69, 0x01};
+  coap_binary_t t = {2, tok};
+  if (!world_up(1, 0)) { out_put("setup-fail"); return; }
+  for (int i = 0; i < 2; i++) {
+    coap_pdu_t *p = new_req(COAP_MESSAGE_CON, COAP_REQUEST_CODE_GET, tok, 2, NULL);
+    if (p && (!coap_add_option(p, COAP_OPTION_OBSERVE, 0, NULL) ||
+              !coap_add_option(p, COAP_OPTION_URI_PATH, 3, (const uint8_t *)"obs"))) { coap_delete_pdu(p); p = NULL; }
+    if (!p) out_put("pdu-fail"); else tracked_send(cs, p);
+    settle(120000);
+    out_put("subs%u", subs_count(r_obs));
+    obs_val++;
+    out_put("notify%d", coap_resource_notify_observers(r_obs, NULL));
+    sim_now += 10;
+    settle(120000);
+  }
+  cancel_and_retry(r_obs, &t, 120000);
+  out_put("subs%u", subs_count(r_obs));
+  obs_val++;
+  out_put("notify%d", coap_resource_notify_observers(r_obs, NULL));
+  settle(120000);
+}
+/* echo: requests to a resource that answers 4.01 + Echo until the request carries the option: libcoap's client block layer
+ * (check_freshness) repeats the request itself -- a copy of the request under a new token, Echo option INSERTED, payload
+ * copied.  The sizes are chosen so that the copy has to GROW in both places: a GET whose options fill the 256-byte first
+ * buffer to within a few bytes (the Echo option does not fit), a PUT with 190 bytes of options and a 400-byte body (the
+ * option fits, the body does not), a FETCH observation with a 2-byte body (token of block 0 registered again), a
+ * notification, coap_cancel_observe (answered 4.01 + Echo again), a last GET with a short query. */
+static void echo_send(int code, int tokb, int observe, size_t qlen, size_t plen) {
+  static uint8_t qbuf[256], pbuf[512];
+  uint8_t t[2];
+  coap_pdu_t *p;
+  memset(qbuf, 'x', sizeof(qbuf)); qbuf[0] = 'q'; qbuf[1] = '=';
+  memset(pbuf, 'Q', sizeof(pbuf));
+  t[0] = 0x6a; t[1] = (uint8_t)tokb;
+  p = new_req(COAP_MESSAGE_CON, code, t, 2, NULL);
+  if (!p) { out_put("pdu-fail"); return; }
+  if ((observe >= 0 && !coap_add_option(p, COAP_OPTION_OBSERVE, 0, NULL)) ||
+      !coap_add_option(p, COAP_OPTION_URI_PATH, 4, (const uint8_t *)"echo") ||
+      (plen && !coap_add_option(p, COAP_OPTION_CONTENT_FORMAT, 0, NULL)) ||
+      (qlen && !coap_add_option(p, COAP_OPTION_URI_QUERY, qlen, qbuf)) ||
+      (plen && !coap_add_data(p, plen, pbuf))) { out_put("opt-fail"); coap_delete_pdu(p); return; }
+  tracked_send(cs, p);
+  settle(120000);
+}
+static void scn_echo(void) {
+  coap_resource_t *r = NULL;
+  uint8_t t3[2] = {0x6a, 0x83};
+  coap_binary_t b3 = {2, t3};
+  if (!world_up(0, 0) || !add_res("echo", COAP_REQUEST_GET, hnd_echo, 1, &r)) { out_put("setup-fail"); return; }
+  coap_register_request_handler(r, COAP_REQUEST_PUT, hnd_echo);
+  coap_register_request_handler(r, COAP_REQUEST_FETCH, hnd_echo);
+  echo_send(COAP_REQUEST_CODE_GET, 0x01, -1, 240, 0);
+  echo_send(COAP_REQUEST_CODE_PUT, 0x82, -1, 180, 400);
+  echo_send(COAP_REQUEST_CODE_FETCH, 0x83, 0, 0, 2);
+  out_put("subs%u", subs_of(r));
+  obs_val++;
+  out_put("notify%d", coap_resource_notify_observers(r, NULL));
+  sim_now += 10; settle(120000);
+  cancel_and_retry(r, &b3, 120000);
+  out_put("subs%u", subs_of(r));
+  echo_send(COAP_REQUEST_CODE_GET, 0x04, -1, 5, 0);
+}
 static void scn_cache(void) {
   static const uint16_t ign1[2] = {COAP_OPTION_ACCEPT, COAP_OPTION_URI_QUERY}, ign2[3] = {COAP_OPTION_ACCEPT, COAP_OPTION_ETAG, COAP_OPTION_RTAG};
   coap_pdu_t *p, *q = NULL;
@@ -1204,7 +1311,7 @@ static const struct { const char *name; void (*fn)(void); } scns[] = {
   {"uri", scn_uri}, {"pdu", scn_pdu}, {"rr", scn_rr}, {"b1", scn_b1}, {"b2", scn_b2}, {"obs", scn_obs},
   {"setup", scn_setup}, {"osc", scn_osc}, {"h508", scn_h508},
   {"wkc", scn_wkc}, {"b1raw", scn_b1raw}, {"b2raw", scn_b2raw}, {"obsblk", scn_obsblk}, {"cache", scn_cache}, {"async", scn_async},
-  {"obsre", scn_obsre}, {"obsfetch", scn_obsfetch},
+  {"obsre", scn_obsre}, {"obsfetch", scn_obsfetch}, {"oscobs", scn_oscobs}, {"echo", scn_echo},
 };
 
 static void on_alarm(int sig) {
@@ -1276,6 +1383,11 @@ static void do_alloc(char **w, int n) {
   for (size_t i = 0; i < sizeof(scns) / sizeof(scns[0]); i++) if (!strcmp(w[1], scns[i].name)) { si = (int)i; fn = scns[i].fn; }
   if (si < 0 && !strncmp(w[1], "b1o.", 4) && w[1][4] && strlen(w[1] + 4) <= 16 && strspn(w[1] + 4, "01234") == strlen(w[1] + 4)) {
     si = 0; fn = scn_b1o; b1o_order = w[1] + 4;
+  }
+  if (si < 0 && !strncmp(w[1], "b1u.", 4) && w[1][4] && strlen(w[1] + 4) <= 40 && strlen(w[1] + 4) % 2 == 0) {
+    int ok = 1;
+    for (const char *q = w[1] + 4; *q; q += 2) if ((q[0] != 'u' && q[0] != 'p') || q[1] < '0' || q[1] > '4') ok = 0;
+    if (ok) { si = 0; fn = scn_b1u; b1u_spec = w[1] + 4; }
   }
   if (si < 0 || n < 3 || n > 4) { printf("bad-op"); return; }
   begin_line();
@@ -1608,7 +1720,9 @@ static void srcv_show(coap_session_t *ss) {
   if (lg->last_token) printf("%zu", lg->last_token->length); else printf("-");
   if (lg->next) printf("+more");
 }
-static void do_asrcv(char **w, int n) {
+static void do_asrcv(char **w, int n, int unk) {
+  static const char *const upath = "unk1";
+  const char *path = unk ? upath : "put";
   coap_session_t *ss = NULL, *s, *tmp;
   coap_resource_t *res;
   coap_string_t *uri;
@@ -1632,7 +1746,7 @@ static void do_asrcv(char **w, int n) {
   chunk = (size_t)1 << (szx + 4);
   begin_line();
   tr_on = 0;
-  if (!world_up(0, 0)) { printf("setup-fail"); world_down(); return; }
+  if (!world_up(0, unk)) { printf("setup-fail"); world_down(); return; }
   {
     coap_pdu_t *p = new_req(COAP_MESSAGE_NON, COAP_REQUEST_CODE_GET, (const uint8_t *)"\x70", 1, "r");
     if (p) coap_send(cs, p);
@@ -1643,12 +1757,12 @@ static void do_asrcv(char **w, int n) {
   {
     coap_str_const_t pth = { 3, (const uint8_t *)"put" };
     coap_lock_lock(srv, return);
-    res = coap_get_resource_from_uri_path_lkd(srv, &pth);
+    res = unk ? srv->unknown_resource : coap_get_resource_from_uri_path_lkd(srv, &pth);
     coap_lock_unlock(srv);
   }
-  uri = coap_new_string(3);
+  uri = coap_new_string(strlen(path));
   if (!ss || !res || !uri) { printf("setup-fail"); coap_delete_string(uri); world_down(); return; }
-  memcpy(uri->s, "put", 3);
+  memcpy(uri->s, path, strlen(path));
   af_k1 = (unsigned)strtoul(w[1], NULL, 10);
   af_k2 = (unsigned)strtoul(w[2], NULL, 10);
   tr_lenient = 1;
@@ -1678,7 +1792,7 @@ static void do_asrcv(char **w, int n) {
       if (req && rsp) {
         coap_add_token(req, tl, tk);
         coap_add_token(rsp, tl, tk);
-        coap_add_option(req, COAP_OPTION_URI_PATH, 3, (const uint8_t *)"put");
+        coap_add_option(req, COAP_OPTION_URI_PATH, strlen(path), (const uint8_t *)path);
         coap_add_option(req, COAP_OPTION_BLOCK1, coap_encode_var_safe(buf, sizeof(buf), (num << 4) | (m << 3) | szx), buf);
         if (size1 >= 0) coap_add_option(req, COAP_OPTION_SIZE1, coap_encode_var_safe(buf, sizeof(buf), (unsigned)size1), buf);
         if (plen) coap_add_data(req, plen, body + off);
@@ -1703,6 +1817,7 @@ static void do_asrcv(char **w, int n) {
   if (first) printf("-");
   printf(" n=%u", af_count);
   srcv_show(ss);
+  if (unk && ss->lg_srcv) printf("/%s", ss->lg_srcv->uri_path ? "p" : "-");
   wtrace = tr_len ? strdup(tr_buf) : strdup("-");
   printf(" T %s", wtrace);
   free(wtrace);
@@ -1721,7 +1836,8 @@ static void step(char *line) {
   if (n >= 1 && !strcmp(w[0], "alloc")) do_alloc(w, n);
   else if (n >= 1 && !strcmp(w[0], "ahelp")) do_ahelp(w, n);
   else if (n >= 1 && !strcmp(w[0], "atrack")) do_atrack(w, n);
-  else if (n >= 1 && !strcmp(w[0], "asrcv")) do_asrcv(w, n);
+  else if (n >= 1 && !strcmp(w[0], "asrcv")) do_asrcv(w, n, 0);
+  else if (n >= 1 && !strcmp(w[0], "asrcvu")) do_asrcv(w, n, 1);
   else printf("bad-op");
   alarm(0);
 }
